@@ -44,6 +44,8 @@ kf = ["# (ii) quotes are not recognised inside ( ... )  -> class quote-inside-li
       case("m", O, 'a 60 IN TXT ( "abc" )\n', recs=[rec(name("a.example.com"), 16, 60, TXT(b"abc"))]),
       "# (ii') ... so a semicolon inside such a string starts a comment -> class semicolon-inside-quoted-list-item",
       case("m", O, 'a 60 IN TXT ( "v=DKIM1; k=rsa" )\n', recs=[rec(name("a.example.com"), 16, 60, TXT(b"v=DKIM1; k=rsa"))]),
+      case("m", O, 'c 60 IN CAA 0 issue ( "ca.example.net; account=230123" )\n',
+           recs=[rec(name("c.example.com"), 257, 60, "CAA,0,0," + hx(b"issue") + "," + hx(b"ca.example.net; account=230123"))]),
       "# (iii) \\DDD in a quoted string is decoded as (d1<<16)+(d2<<8)+d3 -> class decimal-escape-arithmetic",
       case("e", O, 'a 60 IN TXT "\\065bc"\n', recs=[rec(name("a.example.com"), 16, 60, TXT(b"Abc"))]),
       case("e", O, 'a 60 IN TXT "tab\\009 ok" "\\255"\n', recs=[rec(name("a.example.com"), 16, 60, TXT(b"tab\t ok", b"\xff"))]),
@@ -118,6 +120,11 @@ lay = ["# RFC 1035 §5.3 example zone (+ $TTL)", case("m", IO, isi, recs=isi_rec
        "# SRV with underscore labels, wildcard owner",
        case("m", O, "_sip._tcp 60 SRV 1 2 5060 sip\n*.w 60 A 1.2.3.4\n",
             recs=[rec(name("_sip._tcp.example.com"), 33, 60, "SRV,1,2,5060," + name("sip.example.com")), rec(name("*.w.example.com"), 1, 60, A("1.2.3.4"))]),
+       "# HINFO and CAA: character strings, a semicolon inside a quoted CAA value",
+       case("m", O, 'h 60 HINFO "VAX-11/780" UNIX\nc 60 CAA 0 issue "ca.example.net; account=230123"\nc 60 CAA 128 iodef mailto:security@example.com\n',
+            recs=[rec(name("h.example.com"), 13, 60, "HINFO," + hx(b"VAX-11/780") + "," + hx(b"UNIX")),
+                  rec(name("c.example.com"), 257, 60, "CAA,0,0," + hx(b"issue") + "," + hx(b"ca.example.net; account=230123")),
+                  rec(name("c.example.com"), 257, 60, "CAA,1,0," + hx(b"iodef") + "," + hx(b"mailto:security@example.com"))]),
        ]
 files["layouts.case"] = lay
 
